@@ -21,7 +21,7 @@ use cw3::{
     VoterResponse,
 };
 use cw3_fixed_multisig::msg::{ExecuteMsg, InstantiateMsg, QueryMsg, Voter};
-use cw3_fixed_multisig::state::PROPOSALS;
+use cw3_fixed_multisig::state::{CONFIG, PROPOSALS, PROPOSAL_COUNT};
 use cw_multi_test::{App, AppBuilder, ContractWrapper, Executor};
 use cw_storage_plus::Item;
 use cw_utils::{Duration, Expiration, Threshold, ThresholdResponse};
@@ -568,8 +568,15 @@ impl FixedScen {
             }
         }
         pagediff.dedup();
+        // what no query shows (raw reads): the configured maximal voting period, the proposal counter.  With
+        // them the observation determines the whole contract state (model resynchronisation).
+        let maxp = match CONFIG.query(&self.app.wrap(), c.clone()) {
+            Ok(cfg) => render_dur(&cfg.max_voting_period),
+            Err(_) => "?".to_string(),
+        };
+        let count = PROPOSAL_COUNT.query(&self.app.wrap(), c.clone()).unwrap_or(0);
         format!(
-            "obs pagediff={} thr={} total={} voters={} pvoters={} props={} rprops={} pprops={} votes={} pvotes={} raw={} bal={} sink={}",
+            "obs pagediff={} thr={} total={} voters={} pvoters={} props={} rprops={} pprops={} votes={} pvotes={} raw={} bal={} sink={} maxp={} count={}",
             pagediff.join(","),
             thr,
             total,
@@ -582,7 +589,9 @@ impl FixedScen {
             pvotes.join(","),
             raw.join(","),
             bal.join(","),
-            if sink_ok { 1 } else { 0 }
+            if sink_ok { 1 } else { 0 },
+            maxp,
+            count
         )
     }
 
